@@ -22,6 +22,7 @@ PARTS = {
     "C12": [("csim", 280, 1.0)],
     "C15": [("csim", 280, 1.0)],
     "C16": [("csim", 200, 0.7), ("valsetsim", 4000, 0.3)],
+    "C07": [("csim", 280, 1.0)],
 }
 
 REAL = {
@@ -230,9 +231,14 @@ def report(prop, results, failures, determinism):
         if determinism and determinism.get("divergences"):
             drv.log("verif: determinism re-check diverged: %s" % determinism)
             return 2, 0
-        if failures:
-            for f in failures[:3]:
-                drv.log("verif: worker failure rc=%s job=%s\n%s" % (f["rc"], f["job"], f["stderr"][-1500:]))
+        hangs = [f for f in failures if f.get("kind") == "hang"]
+        others = [f for f in failures if f.get("kind") != "hang"]
+        for f in failures[:4]:
+            drv.log("verif: worker failure rc=%s job=%s kind=%s\n%s" % (f["rc"], f["job"], f.get("kind"), f["stderr"][-1500:]))
+        # a run that made no progress in real time is inconclusive (usually goroutines of a dead
+        # incarnation contending for a lock, which synctest cannot see as durably blocked); it is
+        # reported in the evidence and tolerated while rare
+        if others or len(hangs) > max(2, len(results) // 100):
             return 2, 0
     return rc, len(new)
 
@@ -293,7 +299,7 @@ def check_parts(prop, tier, seed, parts, level="exploration", rule=None, extra_e
             real += REAL.get(engine, [])
             stub += STUB.get(engine, [])
         write_evidence(prop, tier, seed, level, allres, wall, nviol, rule,
-                       extra=dict(determinism_recheck=det, worker_failures=len(allfail), runs_per_engine=per_engine, real_components=real, stub_components=stub),
+                       extra=dict(determinism_recheck=det, worker_failures=len(allfail), inconclusive_hung_runs=len([f for f in allfail if f.get("kind") == "hang"]), runs_per_engine=per_engine, real_components=real, stub_components=stub),
                        assumptions=assumptions, engine=parts[0][0])
         return rc
     finally:
@@ -314,7 +320,7 @@ def check(prop, tier, seed):
 
 
 ASSUME = {}
-LEVEL = {}
+LEVEL = {"C07": "fault_enumeration"}
 
 
 def setup():
@@ -355,3 +361,31 @@ def replay(path):
 def selftest(args):
     import selftest as st
     return st.main(args)
+
+
+def capture(args):
+    """verif capture <prop> <oracle> <key> <out.json> [runs]: produce a minimised replay file for a known finding."""
+    prop, oracle, key, out = args[:4]
+    nruns = int(args[4]) if len(args) > 4 else 200
+    s = drv.prepare("capture-%d" % os.getpid())
+    try:
+        best = None
+        for (engine, _, _) in PARTS[prop]:
+            e = ENGINES[engine]
+            binp = drv.build_test(s, e["pkg"], e["bin"])
+            keep = [k for k in known_keys() if k != "%s/%s/%s" % (prop, oracle, key)]
+            results, failures = run_workers(binp, e["test"], prop, default_seed(prop, "quick") + 77, nruns, 900, os.path.join(s, "cap-" + engine),
+                                            extra_env=dict(VERIF_KNOWN=",".join(keep)))
+            for r in results:
+                rp = r.get("replay")
+                if rp and rp["violation"]["oracle"] == oracle and rp["violation"].get("key", "") == key:
+                    if best is None or len(rp["actions"]) < len(best["actions"]):
+                        best = rp
+        if best is None:
+            drv.log("verif: finding not reproduced in %d runs" % nruns)
+            return 2
+        json.dump(best, open(out, "w"), indent=1)
+        print("wrote", out, "actions:", len(best["actions"]))
+        return 0
+    finally:
+        drv.cleanup(s)
